@@ -38,12 +38,12 @@ ASSUMPTIONS = [
     "rates are observed with int concentrations and int/Fraction rate constants (exact arithmetic in the library)",
 ]
 
-QUICK = [("build_q", ["GenSubstance", "GenReaction", "Build", "GenFinish"], 300, 16),
-         ("inact_q", ["GenReaction", "GenReverse", "Build"], 250, 16),
-         ("third_q", ["GenReaction", "Build"], 250, 9)]
+QUICK = [("build_q", ["GenSubstance", "GenReaction", "Build", "GenFinish"], 200, 12),
+         ("inact_q", ["GenReaction", "GenReverse", "Build"], 160, 14),
+         ("third_q", ["GenReaction", "Build"], 160, 9)]
 THOROUGH = [("build_t", [], None, 400), ("inact_t", [], None, 250), ("build3_t", [], None, 150),
             ("third_t", [], 30000, 300)]
-HIST_QUICK = [("hist_nh_q", ["GenQuery", "GenReorder"], 48)]
+HIST_QUICK = [("hist_nh_q", ["GenQuery", "GenReorder"], 36)]
 HIST_THOROUGH = [("hist_nh_t", [], 400), ("hist_per_t", [], 400), ("hist_w_t", [], 400), ("hist_nox_t", [], 500)]
 DYN_QUICK = [("dyn_q", ["GenSetState", "GenEulerStep", "GenSafeStep"])]
 DYN_THOROUGH = [("dyn_t", [])]
@@ -110,7 +110,8 @@ def deep_events(rsys, sysin, exp, rng):
     try:
         with warnings.catch_warnings():
             warnings.simplefilter("ignore")
-            odesys, extra = get_odesys(rsys)
+            # numeric rate constants are inlined under either setting of include_params
+            odesys, extra = get_odesys(rsys, include_params=rng.random() < 0.5)
     except Exception as e:  # the ODE builder refused: not judged here, the observations so far are
         skips.append("deep observation raised %s" % type(e).__name__)
         return evs, skips
@@ -133,6 +134,11 @@ def deep_events(rsys, sysin, exp, rng):
         rng.shuffle(pairs)
         prefs += pairs if len(names) <= 5 else pairs[:6]
         evs += lindep_events(odesys, extra, names, prefs, skips)
+        # the same solver object asked twice (second answer judged), preferred given as a tuple,
+        # and the elimination at a numeric initial state
+        evs += lindep_events(odesys, extra, names, [None, (names[rng.randrange(len(names))],)], skips, repeat=True)
+        y0 = [rng.randint(0, 5) for _ in names]
+        evs += lindep_events(odesys, extra, names, [None, [names[rng.randrange(len(names))]]], skips, y0=y0)
     else:
         skips.append("no linear_dependencies offered")
     # one short integration; invariant matrix and totals are the spec's
@@ -156,6 +162,58 @@ def deep_events(rsys, sysin, exp, rng):
     return evs, skips
 
 
+def variant_trace(case, out):
+    """One further constructor variant per case: a check configuration (balance check requested in
+    another way / not requested) x a form of the substances argument, both rotating with the case.
+    Without the balance check anything is constructed and check_balance / composition_violation /
+    charge_neutrality_violation are asked instead."""
+    sysin, exp = case["in"], case["exp"]
+    h = int(sys_ident(sysin), 16)
+    cfgs = sysin["cfgs"]
+    cfg = cfgs[h % len(cfgs)]
+    forms = [f for f in cc.FORMS if f not in cc.SORTING_FORMS or cc.seq(sysin["sortperm"])]
+    form = forms[(h // 7) % len(forms)]
+    rsys, obs = cc.build_variant(sysin, cfg["name"], form)
+    route = "variant:%s:%s" % (cfg["name"], form)
+    keys = exp["keys"]
+    if cfg["checked"]:
+        out["bad"] += compare_build(case, obs, cc.observe_bvectors(rsys) if rsys is not None and form not in cc.SORTING_FORMS else
+                                    ({"keys": exp["keys"], "B": exp.get("B")} if rsys is not None else None), route)
+        tr = cc.system_events(sysin) + [cc.build_event(obs)]
+    else:
+        if obs["raised"]:
+            out["bad"].append(dict(what="unchecked-construction", route=route, observed=obs,
+                                   expected={"constructed": True}))
+        tr = cc.system_events(sysin) + [{"ev": "BuildUnchecked", "raised": bool(obs["raised"]), "exc": obs["exc"]}]
+    if rsys is not None:
+        if form in cc.SORTING_FORMS:
+            p = [int(x) for x in sysin["sortperm"]]
+            if p != list(range(1, len(p) + 1)):
+                tr.append({"ev": "Reorder", "p": p})
+        tr.append({"ev": "Names", "names": list(rsys.substances.keys()), "src": "rsys.substances"})
+        bv = cc.observe_bvectors(rsys)
+        if bv is not None:
+            tr.append(dict(ev="BVectors", src="composition_balance_vectors", **bv))
+        for strict in (False, True):
+            for throw in (False, True):
+                e = cc.observe_check_balance(rsys, strict, throw)
+                tr.append(e)
+                ok = (e["raised"] == (throw and not exp["accept"])) and (e["raised"] or e["result"] == exp["accept"])
+                if not ok:
+                    out["bad"].append(dict(what="check_balance(strict=%s, throw=%s)" % (strict, throw), route=route,
+                                           observed=e, expected={"balanced": exp["accept"]}))
+        for i in range(len(sysin["rxns"])):
+            for karg in (True, None, list(reversed(keys))[:2]):
+                e = cc.observe_violations(rsys, i, karg, known_keys=keys)
+                if e is not None and e["keys"] is not None:
+                    tr.append(e)
+            e = cc.observe_charge_violation(rsys, i)
+            if e is not None:
+                tr.append(e)
+    tr.append({"ev": "End"})
+    return (route, tr, obs)
+
+
 def replay_case(item):
     case, deep, seed = item
     sysin = case["in"]
@@ -170,6 +228,27 @@ def replay_case(item):
                 tr.append(dict(ev="BVectors", src="composition_balance_vectors", **bv))
             tr.append({"ev": "End"})
             out["traces"].append((route, tr, obs))
+        out["traces"].append(variant_trace(case, out))
+        if all(cc.seq(s["comp"]) for s in sysin["subs"]):
+            # text without a substances argument: the used substances, formula-defined, sorted by name
+            rsys, obs = cc.build_text_derived(sysin)
+            if case["exp"]["accept"]:
+                red = case["exp"]["red"]
+                rin = dict(sysin, subs=red["subs"], rxns=red["rxns"])
+                tr = cc.system_events(rin) + [cc.build_event(obs)]
+                if rsys is not None:
+                    p = [int(x) for x in cc.seq(red["sortperm"])]
+                    if p and p != list(range(1, len(p) + 1)):
+                        tr.append({"ev": "Reorder", "p": p})
+                    if p:
+                        tr.append({"ev": "Names", "names": list(rsys.substances.keys()), "src": "rsys.substances"})
+                        bv = cc.observe_bvectors(rsys)
+                        if bv is not None:
+                            tr.append(dict(ev="BVectors", src="composition_balance_vectors", **bv))
+                tr.append({"ev": "End"})
+                out["traces"].append(("text-derived", tr, obs))
+            else:
+                out["bad"] += compare_build(case, obs, None, "text-derived")
         if deep and case["exp"]["accept"]:
             # the ODE builder needs every substance to take part in a reaction: the deeper
             # observations are made on the system restricted to its used substances (from TLC)
@@ -194,18 +273,19 @@ def replay_case(item):
     return out
 
 
-def lindep_events(odesys, extra, names, prefs, skips):
+def lindep_events(odesys, extra, names, prefs, skips, repeat=False, y0=None):
     evs = []
     for pref in prefs:
-        kind, val = cc.observe_lindep(odesys, extra, pref)
+        kind, val = cc.observe_lindep(odesys, extra, pref, repeat=repeat, y0=y0)
         if kind != "forms":
             skips.append("elimination " + kind)
             continue
         for f in val:
-            e = {"ev": "LinDep", "pref": pref or []}
+            e = {"ev": "LinDep" if y0 is None else "LinDepAt", "pref": list(pref or [])}
             e.update(f)
             evs.append(e)
-        evs.append({"ev": "LinDepDone", "complete": pref is None})
+        if y0 is None:
+            evs.append({"ev": "LinDepDone", "complete": pref is None})
     return evs
 
 
@@ -322,7 +402,8 @@ def run_slice(ctx, sl, res, n_cases, n_deep, titems, n_rej_traces=None):
         for why in out["skips"]:
             ctx.skip(why)
         for b in out["bad"]:
-            ctx.violation({"fn": "ReactionSystem" if b["route"] == "objects" else "ReactionSystem.from_string",
+            ctx.violation({"fn": "ReactionSystem.from_string" if b["route"] == "text" else
+                           ("ReactionSystem" if b["route"] == "objects" else "ReactionSystem/" + b["route"]),
                            "what": b["what"], "cls": case["cls"], "lines": sysin["lines"]},
                           {"direction": "spec->code", "case": case, "observed": b["observed"],
                            "expected": b["expected"], "tlc_cfg": "Conservation_MC_%s.cfg" % sl})
@@ -487,7 +568,7 @@ def run(ctx):
     ctx.exhaustive = not ctx.quick
 
     # code -> spec: seeded formula-defined systems beyond the pool
-    n = 200 if ctx.quick else 6000
+    n = 150 if ctx.quick else 6000
     items = []
     for i in range(n):
         names, rx = seeded_system(ctx.rng)
@@ -503,7 +584,9 @@ def run(ctx):
         raised += bool(obs["raised"])
         ctx.ran(core.stable_hash([names, lines]), nontrivial=True)
         titems.append(({"fn": "ReactionSystem/seeded", "substances": names, "lines": lines, "slice": "seeded"}, tr, obs))
-    if len(titems) > n_before and not (0 < raised < len(titems) - n_before):
+    if len(titems) > n_before and not (0 < raised < len(titems) - n_before) and ctx.violations:
+        ctx.notes.append("seeded systems all accepted or all rejected by the library (violations already reported)")
+    elif len(titems) > n_before and not (0 < raised < len(titems) - n_before):
         raise core.MachineryFailure("vacuity: seeded systems all %s" % ("rejected" if raised else "accepted"))
     ctx.counters["seeded_rejected_by_library"] = raised
     ctx.counters["seeded_accepted_by_library"] = len(titems) - n_before - raised
